@@ -19,7 +19,13 @@ def is_group_values(fn, node, suffix=''):
     if node is None:
         return False
     if U(node) == GROUP_VALUES + suffix:
-        return True
+        # the temporaries must themselves be pt[0][0] / pt[0][1]: their FIRST binding, at the top level of the function (the mask
+        # loop re-uses `index` as a counter later, after the group has been looked up) - mutation `index = pt[1][1]` kept the use text
+        first = {}
+        for st in fn.body:
+            if isinstance(st, ast.Assign) and len(st.targets) == 1 and isinstance(st.targets[0], ast.Name) and st.targets[0].id not in first:
+                first[st.targets[0].id] = U(st.value)
+        return first.get('pt_type') == 'pt[0][0]' and first.get('index') == 'pt[0][1]'
     return U(expand(fn, node)) == GROUP_VALUES_X + suffix
 
 
